@@ -44,7 +44,7 @@ func (h schemasResourceHandler) ResolveFilter(_ common.ResourceQuery[any], opera
 	case "version":
 		return fmt.Sprintf("version %s ?", common.ConvertOperatorToSQL(operator)), []any{value}, nil
 	default:
-		return "", nil, fmt.Errorf("unknown key '%s' when building query", property)
+		return "", nil, common.NewErrInvalidQuery("unknown key '%s' when building query", property)
 	}
 }
 
